@@ -154,6 +154,7 @@ theorem zStep_inv (z : Zc) (h : ZInv z) (op : ZOp) : ZInv (zStep z op) := by
     cases hi : z.inst with
     | none => exact ⟨fun _ => ⟨z.next, rfl⟩, fun _ _ => rfl, i3⟩
     | some x => exact ⟨by simpa [hi] using i1, by simpa [hi] using i2, i3⟩
+  | getFail => exact ⟨i1, i2, i3⟩
   | close =>
     simp only [zStep, zClose]
     cases hc : z.created <;> cases hi : z.inst <;> simp only
@@ -227,5 +228,8 @@ example : addressIsLocal "living-room.local.".toList = true ∧ addressIsLocal "
     hostIsNamePart "fe80::1".toList = false := by decide +kernel
 /-- lookup without an instance, then the application supplies one, then close: the supplied one is untouched -/
 example : (zRun {} [.lookup true, .setInstance 7, .close, .lookup false]).closed = [.own 1000] := by decide +kernel
+/-- the library fails to create its own instance, the application then supplies one: closing leaves it alone -/
+example : (zRun {} [.getFail, .setInstance 7, .close]).closed = [] ∧ (zRun {} [.getFail, .setInstance 7, .close]).inst = some (.supplied 7) := by
+  decide +kernel
 
 end Esp.C20
